@@ -194,6 +194,13 @@ def check(ctx):
                 for a, d in core.compare_decisions(gi, o):
                     rec = dict(g=gid, o=o, inputs=[""], kind="gen", cid="%s/%s/gen" % (gid, o), impl=None, model=gi["opts"][o].get("gen"), spec=None)
                     diffs.append((rec, a, d, False))
+    # side conditions of the theorems, re-evaluated by the extracted checkers for every grammar / option set used
+    for gid, gi in data["grammars"].items():
+        for o in opts:
+            gen = B.parse_obs(gi["opts"][o].get("gen") or "")
+            if gen and (gen.get("good") != "1" or gen.get("swok") != "1"):
+                rec = dict(g=gid, o=o, inputs=[""], kind="gen", cid="%s/%s/side" % (gid, o), impl=None, model=gi["opts"][o].get("gen"), spec=None)
+                diffs.append((rec, "side-condition", "good_grammar=%s good_switches=%s for the tree compiled under option set %s" % (gen.get("good"), gen.get("swok"), o), False))
     reported = 0
     seen_keys = set()
     diffs.sort(key=lambda x: (x[1] in ("missing", "timeout"), not x[3], len(data["grammars"][x[0]["g"]]["text"]) if x[0]["g"] in data["grammars"] else 0, len(x[0]["inputs"][0])))
